@@ -18,6 +18,8 @@ import (
 	"verif/internal/sshsim"
 )
 
+var c16tmp string
+
 var xferTransports = []string{"system", "system-netconf", "standard-shell", "standard-netconf", "telnet"}
 
 func gen(tier string, seed int64) []mon.Case {
@@ -124,6 +126,14 @@ func gen(tier string, seed int64) []mon.Case {
 			}
 		}
 	}
+	// two live transports to one server, the older one closed first
+	for rep := 0; rep < ureps; rep++ {
+		for _, t := range []string{"system-ssh", "standard-shell"} {
+			for _, rs := range []int{81, 8192} {
+				add(Desc{Kind: "twin", T: t, ReadSize: rs})
+			}
+		}
+	}
 	// write, close, slow peer / a write stuck in the implementation when Close is called
 	for rep := 0; rep < ureps; rep++ {
 		for _, t := range []string{"telnet", "standard-shell", "standard-netconf"} {
@@ -182,7 +192,7 @@ func init() {
 			"for the same transports plus the system transport with the real ssh client; re-open cycles (3 x Open/transfer/blocked read/Close on ONE Transport object, forced and " +
 			"unforced close; peer must see the end, the child must be gone). Silence after write: with socket timeouts of 300-1000 ms the peer stays silent for 1.5x / 3x the timeout after a client write, then sends (twice), reader parked in Read. " +
 			"Last words: the peer writes a tail (smaller / larger than the read size) and ends the session in an orderly way while nobody reads for 0.5-1 s; the whole tail must come out of Read before the error. Write-close-slow-peer (telnet, standard): 5 B .. 1 MiB written while the peer does not read, Close, then the peer reads to the end and must get every byte. " +
-			"Stuck write: the peer never reads until a Write is stuck in the implementation, then Close(true) with a parked Read / Close(false) without: Close and the parked Read must return within 5 s (the stuck Write is not judged). Reuse: second use of one Transport object after the peer left + Close, and (standard) after a shell/subsystem request the server refused and an Open retried without Close: the second session must be a real, exact one. Telnet early bursts: the peer sends a burst longer than the read size right after accept (inside the " +
+			"Stuck write: the peer never reads until a Write is stuck in the implementation, then Close(true) with a parked Read / Close(false) without: Close and the parked Read must return within 5 s (the stuck Write is not judged). Reuse: second use of one Transport object after the peer left + Close, and (standard) after a shell/subsystem request the server refused and an Open retried without Close: the second session must be a real, exact one. Twin: two live transports to one server and user, the one opened first is closed, the other must stay an exact pipe. Before every Close the harness calls IsAlive() (as channel/driver code may), also next to a parked Read. Telnet early bursts: the peer sends a burst longer than the read size right after accept (inside the " +
 			"negotiation window, with/without option negotiations). End-to-end: generated CLI and NETCONF (1.0/1.1) sessions over the real " +
 			"transports vs the ideal devsim pipe. Non-trivial = payload larger than the read size, or an unblock case, or an end-to-end differential. Distinct = distinct descriptor.",
 		Assumptions: []string{
@@ -212,6 +222,8 @@ func init() {
 				return runLastWords(d)
 			case "reuse":
 				return runReuse(d)
+			case "twin":
+				return runTwin(d)
 			case "writeclose":
 				return runWriteClose(d)
 			case "stuckwrite":
@@ -227,10 +239,19 @@ func init() {
 			os.Unsetenv("SSH_AUTH_SOCK")
 			os.Unsetenv("SSH_ASKPASS")
 			os.MkdirAll(os.Getenv("HOME"), 0o700)
+			// a private, short temp dir: whatever the library leaves in os.TempDir() (ssh control sockets of a
+			// mutant, ...) is the worker's own and goes at teardown
+			if t, err := os.MkdirTemp("", "c16-"); err == nil {
+				c16tmp = t
+				os.Setenv("TMPDIR", t)
+			}
 			return nil
 		},
 		Teardown: func() {
 			sshsim.ReapAll()
+			if c16tmp != "" {
+				os.RemoveAll(c16tmp)
+			}
 			if d := os.Getenv("C16_DIR"); d != "" {
 				os.RemoveAll(d)
 			}
